@@ -134,7 +134,8 @@ theorem factorize_targets_sound (hρ : LawfulEnv ρ) (hreal : RealArgs ρ) (S : 
     val ρ S.nodes e.1 = factSum ρ res.F (val ρ res.F) e.2.2 := by
   obtain ⟨st, hrun, hF, hfacs, hav, htd⟩ := factorize_ok S rank res h
   obtain ⟨hinv, hxF⟩ := factorize_inv ρ hρ hreal S rank res st hrun hF hfacs hwf
-  obtain ⟨hcS, har, hpos, _, hwft⟩ := wfCheck_spec S rank res hwf
+  obtain ⟨hpos, _, hwft⟩ := wfCheck_spec S rank res hwf
+  obtain ⟨hcS, har⟩ := accepted_closed S.nodes _ _ st hrun
   rw [hav] at hpos
   rw [htd] at he
   simp only [List.mem_map] at he
